@@ -1,8 +1,10 @@
 package aof
 
 import (
+	"context"
 	"time"
 
+	"go.miragespace.co/specter/spec/chord"
 	rt "go.miragespace.co/specter/zzverifrt"
 	"go.uber.org/zap"
 )
@@ -26,6 +28,15 @@ func ZZ_C16_AOF() {
 	go d.Start()
 	m := zz16NewRef()
 	zz16Observe(d, m)
+	if rt.Bound("PRELUDE") == 1 {
+		// a rejected mutation (logged, refused by the memory store, rolled back) before the arbitrary part
+		ctx := context.Background()
+		rt.Assert(d.PrefixAppend(ctx, []byte("a"), []byte("x")) == nil, "fresh-append-returns-nil")
+		rt.Assert(d.PrefixAppend(ctx, []byte("a"), []byte("x")) == error(chord.ErrKVPrefixConflict), "duplicate-append-is-ErrKVPrefixConflict")
+		m.children["a"]["x"] = true
+		zz16Observe(d, m)
+		rt.Reach("rejected-mutation-before-the-history")
+	}
 	for i := 0; i < K; i++ {
 		zz16Step(d, m, kinds)
 		zz16Observe(d, m)
